@@ -8,6 +8,8 @@ TRUSTED_BASE = [
     "OCaml runner (runner/*.ml, zarith for decimal<->Z conversion) and Go harness (harness/*_test.go, build tag verif): trusted for the correspondence only",
     "hand-written Gallina model follows the Go code statement by statement; the tie is the differential run against /repo's working tree on every check",
     "modelled, not verified: cosmossdk.io/math big-integer arithmetic, bank keeper, baseapp CacheContext atomicity, protobuf (de)serialisation, KV-store iteration order",
+    "translator tools/goextract (Go AST / go/types): tables under coq/Gen/*.v and, for tie (C), the regenerated definitions coq/Gen/PureFuns.v (meaning of each Go construct = Lib/GoSem.v; unrecognised shapes fail closed); regenerated from /repo's working tree on every run",
+    "axioms: none declared; Print Assumptions of every theorem is recorded in axioms_per_theorem (all 'Closed under the global context'); coqchk -silent -o in the thorough tier",
 ]
 
 import os, glob
